@@ -312,7 +312,7 @@ ROUND8 = {
     "C08": " Round-8 clause: gemmx M counts the output pattern's bounds with a non-zero temporal stride in that same pattern (not streamer flags).",
     "C10": " Round-8 clause: get_affine_map takes its constant term from self.data.offset only where it is known (no default for a dynamic offset).",
     "C11": " Round-8 clause: every use of a buffer is recorded, whatever the kind of the using op (terminators included).",
-    "C12": " Round-8 clause: users that are no kernels count as readers / writers (func.return excepted for writing).",
+    "C12": " Round-8 clauses: users that are no kernels count as readers / writers (func.return excepted for writing); the users of views of the cast value count as users of the buffer (F-60, known finding).",
     "C13": " Round-8 clause: the view closure descends transitively (views of views).",
     "C14": " Round-8 clause: both dispatch rules ask the extensions about the same kernel op of a region.",
     "C16": " Round-8 clauses: a loop is parallel iff some entry of its output column is non-zero (no column sums); a row slice of the template matrix starts at a count known to be non-negative on every path class.",
